@@ -40,7 +40,7 @@ RULE = (
     "dropped trailing empty cells of field rows, row markers in either case with blanks, property/format names and "
     "symbolic values in any case, blanks around field name/mark/type/rule, x/X, permuted property rows): must stay "
     "accepted with identical field_names, (class, empty flag, str(length), rule) per field, check_names with (class, "
-    "rule) and data format attributes. (b) every entry of a catalogue of 52 structural defects applied alone at every "
+    "rule) and data format attributes. (b) every entry of a catalogue of 53 structural defects applied alone at every "
     "applicable row of the (rewritten) valid CID: must raise InterfaceError whose text names that row as (R<n>C<m>) "
     "first; defects that only show when the CID is completed (no fields, no data format, data format after the "
     "fields, contradictory properties) are judged by exception class only; settings whose acceptance is undocumented "
@@ -63,7 +63,7 @@ ASSUMPTIONS = [
     "by codec), tokenize, re",
 ]
 EXHAUSTIVE = True
-EXHAUSTIVE_SCOPE = ("every variant of the 52 catalogue defects at every applicable row of 5 fixed seed CIDs (one per "
+EXHAUSTIVE_SCOPE = ("every variant of the 53 catalogue defects at every applicable row of 5 fixed seed CIDs (one per "
                     "format kind, all 8 field types, both check types), plain and decorated with comment rows")
 
 _LOCATION_REGEX = re.compile(r"\(R([0-9]+)C([0-9]+)\)")
@@ -406,7 +406,7 @@ def _declared_differences(expect, actual):
                 out.append("field:class")
             if declared[2] is not seen[2]:
                 out.append("field:empty")
-            if declared[3] != seen[4]:
+            if declared[3] != seen[4] and declared[1] != "DecimalFieldFormat":  # Decimal keeps no rule text: not judged
                 out.append("field:rule")
     if [c[0] for c in expect["checks"]] != actual["check_names"]:
         out.append("check_names")
@@ -783,6 +783,9 @@ def defect_cases(case, tagged):
             for rule in variants(["%s,,%s" % (key, other_name), "%s, ,%s" % (key, other_name), ",%s" % key,
                                   ",,%s" % key], at):
                 yield check_defect("C-isunique-doubled-comma", rule, rule=rule)
+            for pattern in variants(["%s (", "%s, '%s", "%s; %s", "%s.%s", "%s + %s", "(%s)", "%s, [%s", "%s, 1"], at):
+                rule = pattern % ((key, other_name)[:pattern.count("%s")])
+                yield check_defect("C-isunique-malformed", pattern, rule=rule)
         else:
             broken = ["%s <", "%s < < 3", "%s 3", "%s < (3", "%s < 3)", "%s ==", "%s < 'x'", "%s <= 'x", "%s < 3 3",
                       "%s <> 3", "%s = 3", "%s < 3 +", "%s < [3", "%s <= 3]", "%s \"< 3"]
@@ -793,7 +796,7 @@ def defect_cases(case, tagged):
                 yield check_defect("C-distinctcount-no-field-first", pattern, rule=rule)
 
 
-DEFECT_COUNT = 52
+DEFECT_COUNT = 53
 
 
 def judge_defect(sub, case, defect, via):
